@@ -111,6 +111,12 @@ def command_ordering(chk: Check, repo: Repo, cls) -> None:
     chk.ob("new-movement-derived-from-the-frozen-estimate", sv.site(), ok, "start_travel(): every attribute write follows self.stop() and uses only values read after it" + (" — " + "; ".join(probs) if probs else ""), key="order|start_travel")
 
 
+def inline_pos(f, e: ast.AST) -> ast.AST:
+    """e with the function's single-definition locals inlined (relative_position -> target - last known ...)"""
+    from ..astx import inline_locals
+    return inline_locals(f.node, e)
+
+
 def report_and_direction(chk: Check, repo: Repo, cls) -> None:
     """(1) A position report re-anchors the estimate: update_position() stores the reported value and the time of the
     report unconditionally — also when the value equals the last known one (a report "still at 20" five seconds into a
@@ -192,18 +198,40 @@ def run(chk: Check, repo: Repo) -> None:
         "ZeroDivisionError|TravelCalculator.calculate_travel_time|… / self.position_closed": ("position_closed is the constant 100 set in __init__ and never written elsewhere", lambda: pc_ok),
     }
     for exc in ("OverflowError", "ValueError"):
-        reviewed[f"{exc}|TravelCalculator._calculate_position|int(self._last_known_position + (self._travel_to_position - self._last_known_position) * (…"] = ("progress lies in [0, 1) by the guard and the positions are ints, so the interpolated value is finite", lambda: guarded_ok)
+        # either shape of the interpolation: int(last + rel * progress) or last + int(rel * progress)
+        for form in ("int((self._travel_to_position - self._last_known_position) * (…", "int(self._last_known_position + (self._travel_to_position - self._last_known_position) * (…"):
+            reviewed[f"{exc}|TravelCalculator._calculate_position|{form}"] = ("progress lies in [0, 1) by the guard and the positions are ints, so the interpolated value is finite", lambda: guarded_ok)
     for q in ("current_position", "is_traveling", "position_reached", "stop", "start_travel", "update_position", "set_position", "is_open", "is_closed"):
         if q in cls.methods:
             check_entry(chk, mr, cls.methods[q], (), label=f"TravelCalculator.{q}", reviewed=reviewed)
     # (e) command ordering: the estimate is frozen under the old movement state, the new state is derived from it
     command_ordering(chk, repo, cls)
+    # (d') the interpolation truncates the *distance travelled*, not the position: `int(last + rel * progress)` rounds
+    # towards zero - for an upward move (towards 0) that is towards the target: the estimate is a step ahead from the first
+    # instant and shows the target before the travel time has elapsed
+    cp_ = cls.methods["_calculate_position"]
+    trunc = [c for r in walk_local(cp_.node) if isinstance(r, ast.Return) and r.value is not None for c in ast.walk(r.value) if isinstance(c, ast.Call) and call_name(c) in ("int", "math.floor", "floor", "math.trunc", "round")]
+    def truncates_the_position(c: ast.Call) -> bool:
+        """the truncated expression has the last known position as an additive term (position, not distance)"""
+        if not c.args:
+            return False
+        terms, stack = [], [inline_pos(cp_, c.args[0])]
+        while stack:
+            t = stack.pop()
+            if isinstance(t, ast.BinOp) and isinstance(t.op, (ast.Add, ast.Sub)):
+                stack += [t.left, t.right]
+            else:
+                terms.append(t)
+        return any(isinstance(t, ast.Attribute) and t.attr == "_last_known_position" for t in terms)
+    ahead = [c for c in trunc if truncates_the_position(c)]
+    chk.ob("interpolation-truncates-the-distance-travelled", cp_.site(), bool(trunc) and not ahead, "the interpolated estimate is last + int(rel * progress): whole steps travelled, never ahead of the drive in either direction" if trunc and not ahead else f"`{ast.unparse(ahead[0]) if ahead else '?'}` truncates the position towards zero: an upward move is one step ahead and reaches the target before the travel time has elapsed", key="interp|truncation")
     # (d) integer results
     for q in ("current_position", "_calculate_position"):
         f = cls.methods[q]
         for r in [n for n in walk_local(f.node) if isinstance(n, ast.Return)]:
             v = r.value
-            ok = v is None or (isinstance(v, ast.Call) and call_name(v) in ("int", "self._calculate_position", "round")) or (isinstance(v, ast.Attribute) and isinstance(v.value, ast.Name) and v.value.id == "self" and v.attr in ("_last_known_position", "_travel_to_position"))
+            int_sum = isinstance(v, ast.BinOp) and isinstance(v.op, (ast.Add, ast.Sub)) and all((isinstance(t, ast.Call) and call_name(t) in ("int", "round")) or (isinstance(t, ast.Attribute) and t.attr in ("_last_known_position", "_travel_to_position")) for t in (v.left, v.right))
+            ok = v is None or int_sum or (isinstance(v, ast.Call) and call_name(v) in ("int", "self._calculate_position", "round")) or (isinstance(v, ast.Attribute) and isinstance(v.value, ast.Name) and v.value.id == "self" and v.attr in ("_last_known_position", "_travel_to_position"))
             chk.ob("estimate-is-int-or-none", f.site(r), ok, f"{f.qualname}: returns `{ast.unparse(v) if v is not None else None}`", key=f"int|{f.qualname}|{canon(r)[:60]}")
     ann = {}
     ini = cls.methods["__init__"]
